@@ -72,21 +72,22 @@ def decorate_answer(answer, request):
             session_id = SessionIdAVP(request.session_id_avp.data)
             answer.avps = [session_id] + answer.avps
 
-        answer.refresh()
-
-    if answer.has_avp("result_code_avp"):
-        #: The E-bit follows the Result-Code family, whether or not the route
-        #: function has already set it on its own.
-        is_failure = bool(is_3xxx_failure(answer) or
-                          is_4xxx_failure(answer) or
-                          is_5xxx_failure(answer))
-
-        if is_failure != answer.header.is_error():
-            answer.header.set_error_bit(is_failure)
-
     if answer.has_avp("experimental_result_avp"):
         if answer.has_avp("result_code_avp"):
             answer.pop("result_code_avp")
+
+    #: The E-bit follows the family of the Result-Code which is sent, whether
+    #: or not the route function has already set it on its own.
+    is_failure = bool(is_3xxx_failure(answer) or
+                      is_4xxx_failure(answer) or
+                      is_5xxx_failure(answer))
+
+    if is_failure != answer.header.is_error():
+        answer.header.set_error_bit(is_failure)
+
+    #: Whatever the route function has changed after building its answer is
+    #: counted in the Message Length.
+    answer.refresh()
 
     return answer
 
